@@ -135,6 +135,10 @@ func (pf *RangeProofAlice) Verify(ec elliptic.Curve, pk *paillier.PublicKey, NTi
 	if new(big.Int).GCD(nil, nil, pf.W, NTilde).Cmp(one) != 0 {
 		return false
 	}
+	// the ciphertext is raised to a negative power below: it must be a unit modulo N^2
+	if c.Sign() != 1 || new(big.Int).GCD(nil, nil, c, pk.NSquare()).Cmp(one) != 0 {
+		return false
+	}
 	if pf.S1.Cmp(q) == -1 {
 		return false
 	}
